@@ -171,12 +171,16 @@ class _CallPatchX86(_CallPatchImpl):
         arg_stack_size = sum(
             stack_slot_size for arg in self._args if not arg.reg
         )
+        # Everything that sits between the (aligned) stack and the call needs to
+        # be accounted for, including the shadow space reserved below.
         if insertion_context.stack_adjustment is not None:
             total_stack_size = (
-                insertion_context.stack_adjustment + arg_stack_size
+                insertion_context.stack_adjustment
+                + arg_stack_size
+                + self._cconv.shadow_space
             )
         else:
-            total_stack_size = arg_stack_size
+            total_stack_size = arg_stack_size + self._cconv.shadow_space
 
         stack_padding = (
             align_address(total_stack_size, self._cconv.stack_alignment)
